@@ -308,7 +308,12 @@ static void oracle(const ccase *c, expect *e) {
 			break;
 		case CL_FILE:
 			if (SV_IS_ASYNC(c->v)) e->refuse = 1;
-			else e->transport = 'f';   /* SILENT: which path is opened, which credentials are used */
+			else {
+				e->transport = 'f';   /* SILENT: which path is opened, which credentials are used */
+				/* SILENT: a file URI without explicit credentials (no key to authenticate the request with;
+				 * the role of user-info in a non-ksi URI is not defined by the statement) */
+				if (!c->x) { e->must_accept = 0; e->silent_why = "no-credentials"; }
+			}
 			break;
 		default:
 			if (SV_IS_ASYNC(c->v)) e->refuse = 1;
